@@ -102,6 +102,13 @@ def solve_text(args):
         return rx
     CVC5 = ("cvc5-1.0", ["/usr/bin/cvc5", "--lang=smt2", f"--tlimit={EXT_TIMEOUT_S * 1000}"], EXT_TIMEOUT_S)
     Z348 = ("z3-4.8", ["/usr/bin/z3", f"-T:{EXT_TIMEOUT_S}"], EXT_TIMEOUT_S)
+    if r == "unknown" and has_q and tried and tried[-1][2] < 2.0:
+        # e-matching saturated quickly without a contradiction: usually a satisfiable (refuted) goal, which MBQI confirms at once
+        r0, dt0, model0 = _run_z3_api(text, 3000)
+        total += dt0
+        tried.append(("z3-5.1", r0, round(dt0, 3)))
+        if r0 in ("sat", "unsat"):
+            r, backend, model = r0, "z3-5.1", model0
     if r == "unknown" and has_q:
         # cvc5 decides many quantified goals on which z3's MBQI wanders; ask it before spending z3's long budget
         rx = ext("cvc5-1.0", ["/usr/bin/cvc5", "--lang=smt2", "--tlimit=8000"], 8)
@@ -135,9 +142,12 @@ def solve_text(args):
 
 def discharge(obligations, thorough=False, workers=None):
     """Solve all obligations in a process pool; fills verdict/backend/time/model on each."""
+    import hashlib
     jobs = []
     for i, ob in enumerate(obligations):
-        jobs.append((i, to_smt2(ob), ob.kind, thorough))
+        text = to_smt2(ob)
+        ob.meta["vc_sha"] = hashlib.sha1(text.encode()).hexdigest()[:16]
+        jobs.append((i, text, ob.kind, thorough))
     if not jobs:
         return
     workers = workers or WORKERS
